@@ -316,12 +316,23 @@ class World:
             fn = model.model_invert
             args_rational = True
             rel = 0.0
+        via_jordan = op == "invert" and step.get("via") == "jordan"
         outcome, payload = self._call(step, [o.live], idx, "live")
         self._check_bystanders(idx, {n}, op)
+        if outcome == "raise" and op == "invert":
+            # invert() is not one of C09's transformations; on this tree it raises for a curve
+            # with a degree-reducible segment (C07/C17 territory).  It must then be a no-op.
+            # (It also leaves the curve half inverted - JordanCurve.invert reverses the segment
+            # objects one by one before the setter's assertion fires - but no claimed property
+            # covers a failing invert(); the object is taken off the heap.)
+            self.stats.inc("probe:invert_raised")
+            del self.slots[n]
+            self._logline(idx, "invert-raised", type(payload).__name__)
+            return
         if outcome == "raise":
             raise Violation("transform-raised", "C09", idx,
                             f"{op}{_argstr(step)} raised {type(payload).__name__}: {payload}")
-        if payload is not o.live:
+        if payload is not (o.live if not via_jordan else o.live.jordans[0]):
             raise Violation("transform-return", "C09", idx,
                             f"{op} did not return the same object")
         post = model.value(o.live)
@@ -331,7 +342,10 @@ class World:
                             f"{op} changed the structure: {model.structure(pred)} expected, {model.structure(post)} found")
         exact = args_rational and kernel.is_rational(pre)
         if exact or op == "invert":
-            if model.value_bits(pred) != model.bits(o.live) and not model.matches_at_resolution(post, pred):
+            # move / scale never pass the points through Point2D(...): exact means exact.
+            # invert re-creates the segments, which re-normalises every point (13.4 item 10)
+            if model.value_bits(pred) != model.bits(o.live) and not (
+                    op == "invert" and model.matches_at_resolution(post, pred)):
                 ok, why = model.close_values(post, pred, 0.0)
                 raise Violation("transform-exact", "C09", idx,
                                 f"{op}{_argstr(step)} on rational data is not the exact affine image: {why}")
@@ -766,7 +780,9 @@ class World:
                 return fa == fb, f"{fa!r} vs {fb!r}"
             d = tol.d if tol else 1.0
             if op == "jlen":
-                rel = 1e-2 if (tol and tol.curved) else 1e-9
+                # the library integrates |C'(u)| with 5 nodes per arc: for a strongly curved arc
+                # the value moves by several per cent when the arc is cut
+                rel = 1e-1 if (tol and tol.curved) else 1e-9
                 if (fa > 0) != (fb > 0):
                     return False, f"signed length {fa!r} vs {fb!r}"
                 return abs(fa - fb) <= rel * max(abs(fa), abs(fb)), f"signed length {fa!r} vs {fb!r}"
@@ -883,7 +899,7 @@ def _ansstr(ans):
 
 
 def _argstr(step):
-    keys = [k for k in step if k not in ("op", "a", "b", "dst", "t1", "t2", "repeat", "drop", "same_answer_as", "needs", "expect", "force_expect", "force_t2", "fault", "kkey", "kakey", "kbkey", "noisy_point", "stability", "dkw")]
+    keys = [k for k in step if k not in ("op", "a", "b", "dst", "t1", "t2", "repeat", "drop", "same_answer_as", "needs", "expect", "force_expect", "force_t2", "fault", "kkey", "kakey", "kbkey", "noisy_point", "stability", "dkw", "via")]
     return "(" + ", ".join(f"{k}={_argval(step[k])}" for k in keys) + ")"
 
 
